@@ -147,6 +147,10 @@ func c09SpecialSeq(g *gen.G, which int) *c09Seq {
 		c1 := mk("expr", "c09-rewrites", x, nil, "oldLog(«x»)", "newLog(«x»)")
 		c2 := mk("expr", "c09-matches-only-inadmissible-places", nil, nil, "helperFn", "util.HelperFn")
 		c2.Comments = []string{"qualify helperFn"}
+		if g.R.Intn(2) == 0 {
+			// ... and carries a package rename, which then does not happen either
+			c2.Guards = []gen.Line{gen.L('-', "package p"), gen.L('+', "package q"), gen.L(' ', "")}
+		}
 		seq := &c09Seq{changes: []*gen.Change{c1, c2}, roles: []string{"rewrites", "matches-only-inadmissible-places"}, base: c1,
 			decls: []string{"func helperFn() {}", "type holder struct {\n\thelperFn int\n}"}}
 		switch g.R.Intn(3) {
